@@ -83,6 +83,9 @@ def rule_effects(ctx, rm):
                 if isinstance(o, dict) and 'static' in o:
                     stat.append(o['static'])
         newmap = [c for bid in reach for c in prog.by_id[bid].live_calls if (c.callee or '').startswith('std::collections::HashMap::<K, V>::new') or (c.callee or '').endswith('HashMap::<K, V, S>::default') or 'HashMap' in (c.callee or '') and (c.callee or '').endswith('::new')]
+        # `#[derive(Default)]` + `Self::default()`: std's `Default` for the map-holding field type (Arc<Mutex<HashMap<..>>>)
+        # builds a fresh, empty value of it
+        newmap += [c for bid in reach for c in prog.by_id[bid].live_calls if c.callee == 'std::default::Default::default' and 'HashMap<' in c.term['dest'].get('ty', '') and c.ruid is None]
         if stat:
             obs.append(bad('EFFECTS', 'EFFECTS|ctxnew', 'Context::new reaches static(s) %s: contexts share state' % stat, cn[0].where(), body=cn[0].name))
         elif not newmap:
